@@ -816,6 +816,12 @@ def check_cfg_linearity(
                 # the second, more fine-grained, analysis based on places.
                 if x not in live_before_bb and x not in scope.vars:
                     continue
+                # Places of a predecessor that are reassigned in this BB are shadowed
+                # and `scope.used` would answer for the new value. If the old value
+                # reaches this BB at all (i.e. is live), it is used before the
+                # reassignment, otherwise the predecessor reports the leak
+                if x in scope.vars and scope.vars[x] is not leaf:
+                    continue
                 used_later = all(x in live_before[succ] for succ in bb.successors)
                 if not leaf.ty.droppable and not scope.used(x) and not used_later:
                     err = PlaceNotUsedError(scope[x].defined_at, leaf)
